@@ -272,7 +272,7 @@ def run_case(case):
     install_watch_hook()
     counters = dict.fromkeys(["evaluations", "build_errors", "restart_errors", "barrier_timeouts",
                               "rounds_without_events", "rounds_after_divergence",
-                              "rounds_where_only_detached_memory_differs"] + REQUIRED_COUNTERS, 0)
+                              "rounds_where_only_detached_memory_differs", "volatile_contents_differ"] + REQUIRED_COUNTERS, 0)
     violations = []
     classes = set()
     witness = {"case": case["id"]}
@@ -436,6 +436,20 @@ def run_case(case):
                 files = tree(".")
                 if files != r["files"]:
                     diff = sorted(p for p in set(files) | set(r["files"]) if files.get(p) != r["files"].get(p))
+                    # The content of a volatile output is not part of the result ("can change when a
+                    # step is repeated with the same inputs"): whether it exists is.
+                    import sqlite3
+                    con = sqlite3.connect("file:.stepup/graph.db?mode=ro", uri=True)
+                    try:
+                        volatile = {row[0] for row in con.execute(
+                            "SELECT node.label FROM node JOIN file ON file.node = node.i WHERE file.state = 18")}
+                    finally:
+                        con.close()
+                    only_content = [p for p in diff if p in volatile and p in files and p in r["files"]]
+                    if only_content:
+                        counters["volatile_contents_differ"] += len(only_content)
+                        diff = [p for p in diff if p not in only_content]
+                if files != r["files"] and diff:
                     vio(mech_suffix or "files after the watch-mode rebuild differ from a restart",
                         f"{what}: {diff[:5]}")
                     diverged = True
